@@ -32,6 +32,21 @@ def _plan(draw, max_rows):
         # sizes beyond any plausible "fast path above N rows" threshold too (both tiers)
         n = draw(st.one_of(st.integers(17, 40), st.integers(17, 40), st.sampled_from(gen.BIG_SIZES), st.sampled_from(gen.HUGE_SIZES[:3])))
         nk = 1
+    if not big and draw(st.integers(0, 14)) == 0:
+        # many keys at once (8 to 18), each with many distinct values: the number of key combinations is far beyond
+        # what one machine word can count
+        n = draw(st.integers(12, 26))
+        cols, keys = [], []
+        uniform = draw(st.booleans())           # every key a string column sorted the same way, or a mixture
+        for j in range(draw(st.integers(8, 24))):
+            kind = "s" if uniform else draw(st.sampled_from(["s", "s", "s", "i", "d", "b", "o"]))
+            if kind == "s":
+                vals = [f"{'abcdefghijklmnopqrstuvwxyz'[i]}{j}" for i in draw(st.permutations(range(n)))]
+            else:
+                vals = draw(gen.values(kind, n, mode="pool", na="none"))
+            cols.append({"name": f"k{j}", "kind": kind, "vals": vals})
+            keys.append([f"k{j}", -1 if uniform else draw(st.sampled_from([1, -1, -1]))])
+        return {"frame": {"n": n, "cols": cols}, "keys": keys, "many_keys": True}
     cols, keys = [], []
     for j in range(nk):
         kind = draw(st.sampled_from(KEY_KINDS))
@@ -185,6 +200,8 @@ def _check_sort(plan, data, ctx, phase=""):
     if build.snap_frame(data) != before:
         raise Violation("sort changed its receiver")
     for c, d in kc:
+        if len(kc) >= 8:
+            ctx.cls("eight_or_more_keys")
         ctx.cls("key_" + c["kind"], "desc" if d < 0 else "asc")
         if any(build.plan_isna(c["kind"], v) for v in c["vals"]):
             ctx.cls("with_missing_key")
